@@ -47,6 +47,7 @@ func vfAuthSerial(serial int) *authenticator {
 func TestVerifC12Token(t *testing.T) {
 	r := vfev.New("C12", "token")
 	defer r.Finish()
+	defer r.RecoverPanic()
 	a := vfAuth()
 	shard, shards := vfev.Shard()
 	type issued struct {
